@@ -538,6 +538,10 @@ def entry_preserve(F):
                 visit(v, none_known)
 
     visit(rs["body"], False)
+    if n_writes == 0:
+        # nothing but the initial save ever assigns the saved entry body (e.g. the wrapper setup uses get_or_insert_with):
+        # it cannot be overwritten
+        r.ob(True, {"writes that could overwrite the saved entry body": 0})
     r.count("entry_rewrites", n_writes)
     return r
 
